@@ -99,16 +99,22 @@ inductive IntRes where
   | oob             -- a read outside `[ptr, ptr + size)` (finding F5)
 deriving DecidableEq, Repr
 
-/-- `INTEGER_decode_oer` on `size = buf.length` octets under `(width, positive)` -/
+/-- `INTEGER_decode_oer` on `size = buf.length` octets under `(width, positive)`.  The contents stored in the
+    `INTEGER_t` are the wire octets without their superfluous leading octets (repair of F36): the zero padding
+    of an unsigned encoding (`stripZeros`, then a 0 in front when the top bit is set), the sign extension of a
+    signed one (`Impl.Integer.strip`, the loop of `INTEGER_encode_der`); all `req` octets are consumed. -/
 def intDecodeOer (width : Nat) (positive : Bool) (buf : Bytes) : IntRes :=
   let go (req off : Nat) : IntRes :=
     if req > buf.length - off then .more                        -- `req_bytes > size`
-    else if positive then
-      -- `msb = *(const uint8_t *)ptr >> 7`; `req_bytes == 0` is rejected before (variable size) or impossible (width)
-      match buf[off]? with
-      | none => .oob
-      | some b => .ok ((if b / 128 % 2 = 1 then [0] else []) ++ (buf.drop off).take req) (off + req)
-    else .ok ((buf.drop off).take req) (off + req)
+    else
+      let body := (buf.drop off).take req
+      if positive then
+        -- `msb = *(const uint8_t *)ptr >> 7`; `req_bytes == 0` is rejected before (variable size) or impossible
+        -- (width): the probe would read outside the `req_bytes` octets
+        match stripZeros body with
+        | [] => .oob
+        | b :: bs => .ok ((if b / 128 % 2 = 1 then [0] else []) ++ b :: bs) (off + req)
+      else .ok (Asn1c.Impl.Integer.strip body) (off + req)
   if width ≠ 0 then go width 0
   else
     match fetchLength buf with
